@@ -880,16 +880,19 @@ func compare(c *core.Case, fr *formatRun, fams []*family, histFams map[string]bo
 			baseSeries = append(baseSeries, &base[i])
 		}
 	}
+	var pr problems
 	for i := range got {
 		switch got[i].Kind {
 		case textparse.EntryHistogram:
 			gotHist = append(gotHist, &got[i])
+			if got[i].H != nil && got[i].FH != nil {
+				// textparse.Parser.Histogram: "the respective other return value being nil"
+				pr.add(generic, famOf(got[i].Labels.Get("__name__"), histFams), "Histogram() returned an integer AND a float histogram for one entry: %s", got[i].Short())
+			}
 		case textparse.EntrySeries:
 			gotSeries = append(gotSeries, &got[i])
 		}
 	}
-	var pr problems
-
 	// ---- histogram entries
 	used := make([]bool, len(gotHist))
 	// exponential histograms of the baseline must come through unchanged
